@@ -31,7 +31,7 @@ func specWordCode(b byte) bool {
 //@   callsite newToken requires[C11,C12] block-comment-ends-at-its-first-terminator: arg1 == COMMENT && hasPrefix(rest(), "/*") ==> strings.IndexFrom(rest(), "*/", 2) >= 2 && arg0 == rest()[2:strings.IndexFrom(rest(), "*/", 2)]
 //@   callsite newToken requires[C11,C12] line-comment-stops-at-the-line-break: arg1 == COMMENT && hasPrefix(rest(), "//") ==> (strings.Index(rest(), "\n") < 0 ==> arg0 == rest()[2:]) && (strings.Index(rest(), "\n") >= 0 ==> arg0 == rest()[2:strings.Index(rest(), "\n")])
 //@   callsite newToken requires[C11,C12] a-minus-after-an-operand-is-the-operator-not-a-sign: arg1 == NUMBER_LITERAL && hasPrefix(arg0, "-") ==> !endsOperand(tokens)
-//@   callsite newToken requires[C11] true-and-false-are-whole-words: arg1 == BOOL_LITERAL ==> (arg0 == "true" || arg0 == "false") && hasPrefix(rest(), arg0) && (len(arg0) == len(rest()) || !specWordCode(rest()[len(arg0)]))
+//@   callsite newToken requires[C11,C01] true-and-false-are-whole-words: arg1 == BOOL_LITERAL ==> (arg0 == "true" || arg0 == "false") && hasPrefix(rest(), arg0) && (len(arg0) == len(rest()) || !specWordCode(rest()[len(arg0)]))
 //@   callsite newToken requires[C11] a-word-is-the-text-at-its-position: arg0 == identifier && ogI + len(identifier) <= len(src()) && identifier == src()[ogI:ogI+len(identifier)]
 //@   callsite newToken requires[C11] a-word-is-not-empty: len(identifier) >= 1
 //@   callsite newToken requires[C11] a-word-starts-with-a-letter-or-underscore: len(identifier) >= 0 && len(rest()) >= 1 && specWordCode(rest()[0]) && !(rest()[0] >= 48 && rest()[0] <= 57)
